@@ -506,6 +506,10 @@ class PreparedStatementPlanner():
 
         query = self.planner.query
 
+        if params is None and stmt.params:
+            # executing without values leaves every placeholder unbound
+            raise PlanningException("Count of execution parameters don't match prepared statement")
+
         if params is not None:
 
             if len(params) != len(stmt.params):
